@@ -769,4 +769,34 @@ theorem run_on_bounded {cfg : Cfg} (S : LockId → Bool) : ∀ (as : List Action
         have := hle.1
         simp; omega
 
+/-- when every request is finished no lock step is enabled -/
+theorem allDone_stuck {cfg : Cfg} {s : State} (hd : AllDone s) (a : Action) (s' : State)
+    (ha : a.lockStep.isSome) : step cfg s a ≠ some s' := by
+  cases a with
+  | genLock ts keys => simp [Action.lockStep] at ha
+  | recycle i ts => simp [Action.lockStep] at ha
+  | acquire l =>
+    simp only [step, acquireStep]
+    cases hl : s.locks l with
+    | none => simp
+    | some lk => simp [hd l lk hl]
+  | unlock l c =>
+    simp only [step, unlock]
+    cases hl : s.locks l with
+    | none => simp
+    | some lk => simp [hd l lk hl]
+  | releaseSlot l =>
+    simp only [step, releaseSlot]
+    cases hl : s.locks l with
+    | none => simp
+    | some lk => simp [hd l lk hl]
+
+theorem sort12 : sortKeys ([[1], [2]] : List Key) = [[1], [2]] := by
+  simp [sortKeys, List.mergeSort, List.MergeSort.Internal.splitInTwo, Bytes.le, Bytes.cmp]
+
+macro "latch_eval2" : tactic =>
+  `(tactic| simp [run, step, genLock, sort1, sort12, acquireStep, acquireSlot, preRecycle, acquireCore, unlock, releaseSlot,
+      Latch.init, emptySlot, upd, cfg0, findNode, updNode, awaits, phaseAfterSuccess, k1, k2, Lock.fullyAcquired,
+      nodeOf, Lock.nextKey, HasHolder, WaitsFor, RunSep, stepsOf, Action.lockStep, Sep])
+
 end CGV.Latch
